@@ -22,9 +22,10 @@ if [ $builds = yes ]; then
     if grep -E "^--- FAIL" "$WT/suite.log" | grep -vE "TestPartitionLeaderFailover|TestTimeoutFuture_ErrorSuccess" | grep -q .; then suite=fail; else suite=pass-flaky; fi
   fi
   cp "$D/zz_seed_demo_test.go" "$WT/$PKG/zz_seed_demo_test.go"
-  if run_ns "go test -count=1 -vet=off -timeout 10m -run 'TestSeed|Seed' ./$PKG/" > "$WT/demo_with.log" 2>&1; then demo_with=pass; else demo_with=fail; fi
+  TAGS=""; if head -3 "$D/zz_seed_demo_test.go" | grep -q "go:build verif"; then TAGS="-tags verif"; fi
+  if run_ns "go test $TAGS -count=1 -vet=off -timeout 10m -run 'TestSeed|Seed' ./$PKG/" > "$WT/demo_with.log" 2>&1; then demo_with=pass; else demo_with=fail; fi
   git checkout -q -- . 
-  if run_ns "go test -count=1 -vet=off -timeout 10m -run 'TestSeed|Seed' ./$PKG/" > "$WT/demo_without.log" 2>&1; then demo_without=pass; else demo_without=fail; fi
+  if run_ns "go test $TAGS -count=1 -vet=off -timeout 10m -run 'TestSeed|Seed' ./$PKG/" > "$WT/demo_without.log" 2>&1; then demo_without=pass; else demo_without=fail; fi
 fi
 echo "{\"seed\":\"$NAME\",\"applies\":\"$applies\",\"builds\":\"$builds\",\"existing_tests\":\"$suite\",\"demo_with_patch\":\"$demo_with\",\"demo_without_patch\":\"$demo_without\"}"
 cp "$WT"/suite.log /tmp/seedchk_${NAME}_suite.log 2>/dev/null
